@@ -177,11 +177,11 @@ def concrete(case):
                 doc2 = None
             if doc2 is not None:
                 doc = json.loads(data)
-                if raw != C.canonserialize(doc2):
+                if raw != CC.ref_canon(doc2):
                     probs.append('signed file is not in canonical form')
                 a = {k: v for k, v in doc.items() if k != 'signatures'}
                 b = {k: v for k, v in doc2.items() if k != 'signatures'}
-                if C.canonserialize(a) != C.canonserialize(b):
+                if CC.ref_canon(a) != CC.ref_canon(b):
                     probs.append('signing changed the document outside its signatures section')
                 arts = dict(doc.get('packages', {}))
                 arts.update(doc.get('packages.conda', {}) if isinstance(doc.get('packages.conda', {}), dict) else {})
@@ -195,7 +195,7 @@ def concrete(case):
                                                              'delegations': {'pkg_mgr': {'pubkeys': [pubhex], 'threshold': 1}}}}
                     for name, meta in arts.items():
                         ent = sec[name]
-                        if ent != {pubhex: {'signature': sk.sign(C.canonserialize(meta)).hex()}}:
+                        if ent != {pubhex: {'signature': sk.sign(CC.ref_canon(meta)).hex()}}:
                             probs.append(f'entry of {name!r} is not the signer\'s ed25519 signature over that artifact\'s canonical metadata')
                             continue
                         env = S.wrap_as_signable(meta)
@@ -204,7 +204,7 @@ def concrete(case):
                         if v['kind'] != 'ret':
                             probs.append(f'client verification of {name!r} failed: {v["cls"]}')
                         for other, meta2 in arts.items():
-                            if C.canonserialize(meta2) != C.canonserialize(meta):
+                            if CC.ref_canon(meta2) != CC.ref_canon(meta):
                                 env2 = S.wrap_as_signable(meta2)
                                 env2['signatures'] = ent
                                 if CC.outcome_of(A.verify_delegation, 'pkg_mgr', env2, key_mgr)['kind'] == 'ret':
@@ -214,7 +214,7 @@ def concrete(case):
                         probs.append('signing again changed the file')
                 if case.get('docB') is not None:
                     docB = from_wire(case['docB'])
-                    with CC.temp_files({'other.json': C.canonserialize(docB)}) as pb:
+                    with CC.temp_files({'other.json': CC.ref_canon(docB)}) as pb:
                         oc3 = CC.outcome_of(S.sign_all_in_repodata, pb['other.json'], case['key'])
                         secB = json.loads(open(pb['other.json'], 'rb').read()).get('signatures') if oc3['kind'] == 'ret' else None
                         if oc3['kind'] != 'ret' or not isinstance(secB, dict) or set(secB) != set(docB['packages']):
